@@ -268,6 +268,13 @@ type pathCtx struct {
 	// lockset race check under the inline schedule (see raceWrite)
 	gidStack []int
 	nextGid  int
+	// per goroutine id: the goroutine that spawned it and the value of raceSeq at its `go` statement
+	gidParent map[int]int
+	gidSpawn  map[int]int
+	// gidTop: the enclosing goroutine started by harness code (a controller's reconcile run in its own
+	// goroutine by a harness), 0 for goroutines of a run the harness makes directly
+	gidTop map[int]int
+	raceSeq   int
 	held     map[*value]int
 	wrote    map[interface{}]raceRec
 	readBy   map[interface{}][]raceRec
@@ -277,6 +284,7 @@ type raceRec struct {
 	gid   int
 	locks []*value
 	site  string
+	seq   int // value of pathCtx.raceSeq when recorded (for reads: at the latest read)
 }
 
 func (c *pathCtx) solver() *Solver { return c.w.solver }
